@@ -80,8 +80,7 @@ def snapshot(root):
     inodes = {}
     for dirpath, dirnames, files in os.walk(root):
         for name in dirnames:
-            if os.listdir(os.path.join(dirpath, name)):  # empty directories are not compared (corner cases of -a)
-                out[os.path.relpath(os.path.join(dirpath, name), root) + '/'] = 'dir'
+            out[os.path.relpath(os.path.join(dirpath, name), root) + '/'] = 'dir'  # empty directories included
         for name in files:
             path = os.path.join(dirpath, name)
             with open(path, 'rb') as handle:
@@ -104,6 +103,13 @@ def one(seed):
                 'a/b', '/a/**', 'f?', '/packs', 'loose/*', '/*/0', 'dup', '[xy]', '/container/loose/***'[:-1]]
         excludes = [(rng.choice('+-'), rng.choice(pats)) for _ in range(rng.randint(1, 4))]
     trailing = rng.random() < 0.5
+    dest_trailing = rng.random() < 0.3
+    if rng.random() < 0.25:
+        # the corner backup_container lives in: an empty source folder (loose/ of a container without loose objects)
+        shutil.rmtree(os.path.join(src, 'loose'), ignore_errors=True)
+        if os.path.isfile(os.path.join(src, 'loose')):
+            os.unlink(os.path.join(src, 'loose'))
+        os.makedirs(os.path.join(src, 'loose'))
     use_link = rng.random() < 0.5
     pre_dest = rng.random() < 0.4
     source_is_file = rng.random() < 0.15
@@ -142,9 +148,9 @@ def one(seed):
             args += ['--exclude', pat]
     if use_link:
         args += [f'--link-dest={link}']
-    real = subprocess.run(args + [source + ('/' if trailing else ''), dests['real']], capture_output=True, text=True, check=False)
+    real = subprocess.run(args + [source + ('/' if trailing else ''), dests['real'] + ('/' if dest_trailing else '')], capture_output=True, text=True, check=False)
     try:
-        rsyncsim.rsync(source, dests['stub'], link_dest=link if use_link else None, src_trailing_slash=trailing, excludes=excludes)
+        rsyncsim.rsync(source, dests['stub'], link_dest=link if use_link else None, src_trailing_slash=trailing, excludes=excludes, dest_trailing_slash=dest_trailing)
         stub_ok = True
     except rsyncsim.RsyncFailed:
         stub_ok = False
